@@ -382,7 +382,11 @@ func judge(p *program, readSeed uint64) verdict {
 			return v
 		}
 		if m.errored {
-			add("panic-instead-of-error:"+m.errClass, map[string]any{"panic": fmt.Sprint(o.pv), "site": o.site})
+			class := m.errClass
+			if strings.HasPrefix(class, "fixed-exceeded@") {
+				class = "fixed-exceeded" // one defect whatever the first write that did not fit (detail has it)
+			}
+			add("panic-instead-of-error:"+class+":"+slug(fmt.Sprint(o.pv)), map[string]any{"panic": fmt.Sprint(o.pv), "site": o.site})
 		} else {
 			add("unexpected-panic:"+o.site, map[string]any{"panic": fmt.Sprint(o.pv)})
 		}
@@ -709,6 +713,19 @@ func buildProgram(i int64, r *rand.Rand, thorough bool) *program {
 			p.capMode = 0
 		case 8:
 			p.plan = "fixed-insufficient"
+			switch sub % 16 {
+			case 0: // forced: no room for a length prefix
+				p.ops = []*op{{kind: kLP, n: 1 + r.IntN(4), kids: nil}}
+				if r.IntN(2) == 0 {
+					p.ops = []*op{{kind: kASN1, tag: 0x30, kids: nil}}
+				}
+				p.capZero = true
+				return p
+			case 1: // forced: no room for the ASN.1 long-form length octets
+				p.ops = []*op{{kind: kASN1, tag: 0x30, kids: []*op{{kind: kBytes, n: 128 + r.IntN(300), seed: byte(r.IntN(256))}}}}
+				p.capMode = -1
+				return p
+			}
 			switch r.IntN(6) {
 			case 0:
 				p.capZero = true
@@ -884,6 +901,23 @@ func TestC22(t *testing.T) {
 		m.Gate("overflow_u24_by_one", 20, "24-bit prefix with exactly 2^24 content bytes")
 		m.Gate("fit_u24_max", 20, "24-bit prefix with 2^24-1 content bytes")
 	}
+}
+
+// slug turns a (constant) panic message into a key component.
+func slug(s string) string {
+	var b strings.Builder
+	for _, c := range strings.ToLower(s) {
+		switch {
+		case c >= 'a' && c <= 'z', c >= '0' && c <= '9':
+			b.WriteRune(c)
+		case b.Len() > 0 && !strings.HasSuffix(b.String(), "-"):
+			b.WriteByte('-')
+		}
+		if b.Len() >= 60 {
+			break
+		}
+	}
+	return strings.Trim(b.String(), "-")
 }
 
 func cloneOps(ops []*op) []*op {
